@@ -348,6 +348,7 @@ func runC10(c *eng.Ctx) {
 	c.Rule("GOC", "index.indexKVStore.createValue", func() { gocCreateValue(c) })
 
 	c.Rule("LAYOUT", "index/v1.tagForwardReader{run of container i starts after the runs of all containers before it}", func() { forwardLookupTable(c) })
+	c.Rule("PASS", "index.forwardIndex.GetGroupingContext{intersection per group-by tag key}", func() { groupingIntersectsPerTagKey(c) })
 
 	c.Rule("SYMMETRY", "index{regex lookup: persisted candidates = all keys unless the expression is anchored}", func() { regexCandidates(c) })
 	c.Rule("GUARD", "index.indexKVStore.FindValuesByLike{no pattern slices out of range}", func() { likePatternSlices(c) })
@@ -644,6 +645,25 @@ func forwardLookupTable(c *eng.Ctx) {
 	rd := c.Fn("index/v1.tagForwardReader.GetSeriesAndTagValue")
 	usesLut := len(p.Sites(rd, eng.LoadField("index/v1.tagForwardReader.lut"))) > 0
 	c.Check(usesLut, "reader-addresses-by-table", nil, rd, "the reader takes the start of a container's run from the lookup table", "")
+	// the table has one entry per CONTAINER (position in the bitmap), not per high key: it is indexed by the container index the
+	// bitmap reports for the high key, the same index the container itself is fetched by
+	nIdx := 0
+	for _, b := range eng.BlocksT(rd) {
+		for _, in := range b.Instrs {
+			ia, ok := in.(*ssa.IndexAddr)
+			if !ok || !eng.DependsOnField(ia.X, "index/v1.tagForwardReader.lut") {
+				continue
+			}
+			nIdx++
+			fromIdx := eng.DependsOn(ia.Index, func(y ssa.Value) bool {
+				cl, ok := y.(*ssa.Call)
+				return ok && cl.Common().StaticCallee() != nil && cl.Common().StaticCallee().Name() == "GetContainerIndex"
+			})
+			c.Check(fromIdx, fmt.Sprintf("table-indexed-by-container-index[%d]", nIdx), ia, rd,
+				"lut is indexed by GetContainerIndex(highKey), the position of the container in the bitmap", "index "+p.Desc(ia.Index))
+		}
+	}
+	c.Check(nIdx >= 1, "table-index-found", nil, rd, "the reader indexes the lookup table", "")
 	f := c.Fn("index/v1.NewTagForwardReader")
 	var lut *ssa.MakeSlice
 	for _, b := range eng.BlocksT(f) {
